@@ -216,16 +216,22 @@ func jitter(k *int64, bits uint64) {
 		runtime.Gosched()
 	}
 }
-func (w sleepy3) Evaluate(p v3.Vec) float64 { jitter(w.k, math.Float64bits(p.X)); return w.s.Evaluate(p) }
-func (w sleepy3) BoundingBox() sdf.Box3     { return w.s.BoundingBox() }
+func (w sleepy3) Evaluate(p v3.Vec) float64 {
+	jitter(w.k, math.Float64bits(p.X))
+	return w.s.Evaluate(p)
+}
+func (w sleepy3) BoundingBox() sdf.Box3 { return w.s.BoundingBox() }
 
 type sleepy2 struct {
 	s sdf.SDF2
 	k *int64
 }
 
-func (w sleepy2) Evaluate(p v2.Vec) float64 { jitter(w.k, math.Float64bits(p.X)); return w.s.Evaluate(p) }
-func (w sleepy2) BoundingBox() sdf.Box2     { return w.s.BoundingBox() }
+func (w sleepy2) Evaluate(p v2.Vec) float64 {
+	jitter(w.k, math.Float64bits(p.X))
+	return w.s.Evaluate(p)
+}
+func (w sleepy2) BoundingBox() sdf.Box2 { return w.s.BoundingBox() }
 
 // gated3 / gated2 hold the first evaluation of a render until released: the render has then
 // created its output object and another render can run from start to end in between.
@@ -464,6 +470,11 @@ func checkC09(c *Ctx, r *Report) error {
 			}
 		}
 	}
+	// more batches than the evaluation queue plus the workers can hold at once (queue capacity
+	// 100 + one batch per CPU): buffers recycled too early would be overwritten while in use
+	for _, side := range []int{109, 127} {
+		layerRun(r, cs, &id, B, side, side, false, "queue-overflow")
+	}
 	for k := 0; k < TierN(c.Tier, 40, 400, 120); k++ {
 		var ny, nz int
 		switch k % 4 {
@@ -639,7 +650,12 @@ func checkC09(c *Ctx, r *Report) error {
 		select {
 		case <-ga.gate.started:
 		case <-time.After(30 * time.Second):
-			return fmt.Errorf("render %s never evaluated its model", a.key())
+			k := fmt.Sprintf("history-reuse:%s", a.key())
+			r.Case("overlap/"+a.sink, k, true)
+			r.Violate(k, fmt.Sprintf("render %s (after an earlier render of the same job in this process) never evaluated its model: its output cannot depend on the model it was given, only on the render history", a.key()),
+				map[string]interface{}{"job": a.key()})
+			close(ga.gate.release)
+			continue
 		}
 		gotB, err := observe(env, b, &counter)
 		close(ga.gate.release)
@@ -656,6 +672,54 @@ func checkC09(c *Ctx, r *Report) error {
 		if ra.got != refA || gotB != refB {
 			r.Violate(key, fmt.Sprintf("render A = %s overlapped by render B = %s (B runs from start to end while A is held at its first evaluation): A alone %s, A overlapped %s; B alone %s, B inside A %s",
 				a.key(), b.key(), refA, ra.got, refB, gotB), map[string]interface{}{"a": a.key(), "b": b.key()})
+		}
+	}
+	// render histories: two DIFFERENT models with the same bounding box and resolution, rendered
+	// back to back by each renderer: B after A must equal B rendered first
+	{
+		blk, _ := sdf.Box3D(v3.Vec{X: 2, Y: 2, Z: 2}, 0)
+		cyl, _ := sdf.Cylinder3D(3, 0.5, 0)
+		bored := sdf.Difference3D(blk, cyl)
+		sq := sdf.Box2D(v2.Vec{X: 2, Y: 2}, 0)
+		ci, _ := sdf.Circle2D(0.5)
+		boredSq := sdf.Difference2D(sq, ci)
+		type mk3 func() render.Render3
+		for name, mk := range map[string]mk3{
+			"mcu": func() render.Render3 { return render.NewMarchingCubesUniform(cells) },
+			"mco": func() render.Render3 { return render.NewMarchingCubesOctree(cells) }} {
+			key := "history:" + name + "/block-then-bored-block"
+			r.Case("history/"+name, key, true)
+			configs++
+			refB := hashTris(render.ToTriangles(bored, mk()))
+			_ = render.ToTriangles(blk, mk())
+			gotB := hashTris(render.ToTriangles(bored, mk()))
+			refA := hashTris(render.ToTriangles(blk, mk()))
+			if gotB != refB {
+				r.Violate(key, fmt.Sprintf("%s: a bored block rendered right after a plain block with the same bounding box and resolution gives %s, rendered first it gives %s (plain block: %s)", name, gotB, refB, refA),
+					map[string]interface{}{"renderer": name, "cells": cells})
+			}
+		}
+		type mk2 func() render.Render2
+		hashLines := func(s sdf.SDF2, rr render.Render2) string {
+			path := filepath.Join(env.Tmp, fmt.Sprintf("c09-h-%d-%d.svg", os.Getpid(), atomic.AddInt64(&fileSeq, 1)))
+			defer os.Remove(path)
+			render.ToSVG(s, path, rr)
+			b, _ := os.ReadFile(path)
+			return hashBytes(b)
+		}
+		for name, mk := range map[string]mk2{
+			"msu": func() render.Render2 { return render.NewMarchingSquaresUniform(40) },
+			"msq": func() render.Render2 { return render.NewMarchingSquaresQuadtree(40) }} {
+			key := "history:" + name + "/square-then-bored-square"
+			r.Case("history/"+name, key, true)
+			configs++
+			refB := hashLines(boredSq, mk())
+			_ = hashLines(sq, mk())
+			gotB := hashLines(boredSq, mk())
+			if gotB != refB {
+				r.Violate(key, fmt.Sprintf("%s: a bored square rendered right after a plain square with the same bounding box and resolution gives %s, rendered first it gives %s", name, gotB, refB),
+					map[string]interface{}{"renderer": name})
+			}
 		}
 	}
 	for _, j := range jobs {
@@ -684,4 +748,3 @@ func checkC09(c *Ctx, r *Report) error {
 		"the run-time part exhibits only the schedules the Go scheduler happened to produce")
 	return nil
 }
-
